@@ -28,7 +28,7 @@ RULE = ("seeded swarm: max_attempts 0..8, per-class limits 0..3 on 0-3 classes, 
         "object, every entry point sync+async; distinct by trace shape; non-trivial = >=1 failed attempt")
 COMPONENTS = common.REAL_COMPONENTS
 ASSUMPTIONS = ["the classifier's answer (observed at the seam) is the failure's class", "sampling, not proof"]
-BUDGETS = {"quick": (20000, 40), "thorough": (1200000, 280)}
+BUDGETS = {"quick": (60000, 90), "thorough": (2200000, 285)}
 
 
 def gen(seed, tier="quick"):
